@@ -192,18 +192,28 @@ func c09Run(c *fw.Ctx, b fw.Batch) {
 		})
 	case "huge":
 		// size thresholds: a defect only in the tail of a document of more than 1 MiB
-		var big bytes.Buffer
-		big.WriteString("[")
-		for big.Len() < 1300000 {
-			big.WriteString(`{"k":[1,2,3],"s":"some text"},`)
-		}
-		base := big.Bytes()
-		for ti, tl := range []string{`{"k":1}]`, `{"k":1}`, `{"k" 1}]`, `{"k":1}]]`, `{"k":1}}`, `{"k":1},]x`, `tru]`, `{"k":1}] junk`, `"a" "b"]`} {
-			x := append(append([]byte{}, base...), tl...)
-			for _, l := range []uint32{0, 8 << 20, uint32(len(x)), uint32(len(x) + 1)} {
-				c09Judge(c, "huge", x, l, false)
+		for si, size := range []int{1300000, 5 << 20, 17 << 20} {
+			var big bytes.Buffer
+			big.WriteString("[")
+			for big.Len() < size {
+				big.WriteString(`{"k":[1,2,3],"s":"some text"},`)
 			}
-			c.Distinct(fmt.Sprintf("huge|%d", ti))
+			base := big.Bytes()
+			tails := []string{`{"k":1}]`, `{"k":1}`, `{"k" 1}]`, `{"k":1}]]`, `{"k":1}}`, `{"k":1},]x`, `tru]`, `{"k":1}] junk`, `"a" "b"]`}
+			if si > 0 {
+				tails = []string{`{"k":1}]`, `{"k":1}`, `{"k" 1}]`, `{"k":1}}`, `{"k":1}] junk`}
+			}
+			for ti, tl := range tails {
+				x := append(append([]byte{}, base...), tl...)
+				lims := []uint32{0, 8 << 20, uint32(len(x)), uint32(len(x) + 1)}
+				if si > 0 {
+					lims = []uint32{0, uint32(len(x) + 1)}
+				}
+				for _, l := range lims {
+					c09Judge(c, "huge", x, l, false)
+				}
+				c.Distinct(fmt.Sprintf("huge|%d|%d", si, ti))
+			}
 		}
 	case "escapes":
 		// \u followed by 0-4 hex digits and then EVERY byte value; long strings (> 32
@@ -353,7 +363,7 @@ func init() {
 	fw.Register(&fw.Prop{
 		ID:    "C09",
 		Level: "exploration",
-		Rule: "bounded-exhaustive: ALL sequences of 1..N tokens over the 16-token alphabet [ ] { } , : \" \"a\" 1 space newline a \\ - tru null (N = 6 quick, 7 thorough), each detected whole (limit 0, and len+1) and truncated (limit = len, and len-1), through Detect and through the JSON signature check directly; plus mutated valid documents (delete/insert/swap/replace a structural byte, drop a closer, duplicate a comma, cut + garbage) for longer inputs, plus every byte value and Unicode white-space look-alikes (U+0085, U+00A0, U+2028, U+3000, form feed, comments) before / after / inside valid documents, plus \\u escapes followed by every byte value and long strings holding an invalid escape (whole and cut inside the string), plus documents of > 1 MiB whose only defect is in the tail, plus garbage behind 100-9000 nested openers (around and beyond the recursion cap of 4096). " +
+		Rule: "bounded-exhaustive: ALL sequences of 1..N tokens over the 16-token alphabet [ ] { } , : \" \"a\" 1 space newline a \\ - tru null (N = 6 quick, 7 thorough), each detected whole (limit 0, and len+1) and truncated (limit = len, and len-1), through Detect and through the JSON signature check directly; plus mutated valid documents (delete/insert/swap/replace a structural byte, drop a closer, duplicate a comma, cut + garbage) for longer inputs, plus every byte value and Unicode white-space look-alikes (U+0085, U+00A0, U+2028, U+3000, form feed, comments) before / after / inside valid documents, plus \\u escapes followed by every byte value and long strings holding an invalid escape (whole and cut inside the string), plus documents of > 1 MiB, > 5 MiB and > 17 MiB whose only defect is in the tail, plus garbage behind 100-9000 nested openers (around and beyond the recursion cap of 4096). " +
 			"non-trivial = the reference recogniser says the parser has something to reject in that mode (whole: not Complete; truncated: Fail); enumerated strings are distinct by construction (counted once per string and mode), mutants are counted by content hash.",
 		Assumptions: []string{
 			"the relaxed language is the one written in oracle/refjson.go from the property statement: RFC 8259 structure, numbers = runs over [-+.0-9eE] with a digit, any byte but '\"' inside strings with the standard escapes, one trailing comma before a closer",
